@@ -59,6 +59,11 @@ def _case(job):
         a, b = pairs.near_background(rnd)
         if rnd.random() < 0.3:
             a, b = (128, 128, 128), (120, 120, 120)
+        elif vr and not large and rnd.random() < 0.45:
+            # the text already IS the better extreme for its background and still misses 7.0 (nothing can be gained)
+            g_ = rnd.randrange(96, 142)
+            b = (g_, g_, g_)
+            a = (0, 0, 0) if refs.wcag_ratio((0, 0, 0), b) >= refs.wcag_ratio((255, 255, 255), b) else (255, 255, 255)
     text = spell_variant(a, c["spell"], seed, rnd)
     bg = pairs.spell(b, rnd.choice(["tuple", "hex6", "rgbfn", "list", "named" if False else "hexupper"]), rnd)
     vis = c["vis"]
